@@ -29,7 +29,7 @@ type c08Case struct {
 	Backend      backends.Kind `json:"backend"`
 	IntegrityOff bool          `json:"integrityOff,omitempty"`
 	Prior        string        `json:"prior"` // absent | present | upload (pending multipart upload with parts; the object also exists)
-	Kind         string        `json:"kind"`  // put | chunked | part | post
+	Kind         string        `json:"kind"`  // put | chunked | part | post | copy (server-side copy of dir/neighbour onto the key)
 	Fault        string        `json:"fault"`
 	Body         bodySpec      `json:"body"`
 	K            int           `json:"k,omitempty"`
@@ -70,6 +70,12 @@ func c08Build(cs c08Case, uploadID string, metaLimit int) (rq *s3x.Req, verdict 
 	rq = &s3x.Req{Method: "PUT", Path: "/bk0/" + key, Body: body, Frag: cs.Frag}
 	verdict = mustAccept
 	switch cs.Kind {
+	case "copy":
+		// an upload by copy: the bytes are those of the (always present) neighbour object
+		body = []byte("neighbour")
+		payload = body
+		rq.Body = nil
+		rq.Header = s3x.H("X-Amz-Copy-Source", "/bk0/dir/neighbour")
 	case "chunked":
 		rq.Body = oracle.ChunkedEncode(body, []int{cs.K%7000 + 1, 33000})
 		rq.Header = s3x.H("X-Amz-Content-Sha256", "STREAMING-AWS4-HMAC-SHA256-PAYLOAD", "X-Amz-Decoded-Content-Length", fmt.Sprint(len(body)), "Content-Encoding", "aws-chunked")
@@ -345,6 +351,7 @@ var c08Faults = map[string][]string{
 		"key-too-long", "meta-too-large"},
 	"part": {"none", "md5-correct", "md5-wrong", "md5-badb64", "md5-15bytes", "md5-17bytes", "md5-empty", "short-body", "short-body-all", "truncated-body", "reader-fails", "no-content-length", "te-chunked"},
 	"post": {"none", "key-too-long", "key-1024", "key-long-segment", "no-key", "no-file", "two-files", "truncated-form", "short-body"},
+	"copy": {"none", "key-1023", "key-1024", "key-too-long", "key-long-segment", "meta-small", "meta-too-large", "meta-many-too-large"},
 }
 
 // c08Snapshot captures everything the statement says must stay the same.
@@ -564,7 +571,7 @@ func c08Run(t *testing.T, c *evid.Collector) {
 	for _, k := range kinds {
 		for _, ioff := range []bool{false, true} {
 			for _, prior := range []string{"absent", "present", "upload"} {
-				for _, kind := range []string{"put", "chunked", "part", "post"} {
+				for _, kind := range []string{"put", "chunked", "part", "post", "copy"} {
 					for _, f := range c08Faults[kind] {
 						for bi, b := range bodies {
 							if bi == 1 && (ioff || prior == "upload") {
@@ -647,7 +654,7 @@ func c08Run(t *testing.T, c *evid.Collector) {
 	// ---- random
 	rapidRun(t, "random", evid.Scale(1200, 25000), func(rt *rapid.T) {
 		k := rapid.SampledFrom(kinds).Draw(rt, "backend")
-		kind := rapid.SampledFrom([]string{"put", "put", "chunked", "part", "post"}).Draw(rt, "kind")
+		kind := rapid.SampledFrom([]string{"put", "put", "chunked", "part", "post", "copy"}).Draw(rt, "kind")
 		cs := c08Case{Backend: k, IntegrityOff: rapid.IntRange(0, 3).Draw(rt, "ioff") == 0,
 			Prior: rapid.SampledFrom([]string{"absent", "present", "present", "upload"}).Draw(rt, "prior"), Kind: kind,
 			Fault: rapid.SampledFrom(c08Faults[kind]).Draw(rt, "fault"), K: rapid.IntRange(0, 100000).Draw(rt, "k")}
